@@ -8,13 +8,20 @@
    [WF] is the reachable-state invariant "columns of a table have equal length, ragged offsets
    well formed, index arrays as long as the edge table" — cell VALUES are arbitrary. *)
 From Coq Require Import List ZArith.
-From TskVerif Require Import Base.Common C02.Fl C02.Model C02.Spec C02.Sound C02.Refuted C02.Top.
+From TskVerif Require Import Base.Common C02.Fl C02.Model C02.Spec C02.Sound C02.SweepComplete C02.Refuted C02.Top C02.BuildIndex.
 Open Scope Z_scope.
 
 (* (a) the gate never indexes out of bounds, whatever the cell values: every id is
    range-checked before it is used as an array index.  FULL statement, both variants. *)
 Theorem check_no_oob : forall t, WF t -> check t <> OOB /\ check_repaired t <> OOB.
 Proof. exact check_no_oob_top. Qed.
+
+(* (b0) the per-table requirement classes (references in range, finite coordinates and times,
+   0 <= left < right <= L, parent older than child, edge order and contiguity, site order and
+   uniqueness, all mutation row/order/known-unknown clauses, migrations, individuals, offsets)
+   follow from acceptance with NO hypothesis on the tables at all. FULL for these classes. *)
+Theorem check_sound_rows : forall t n, check t = Ok n -> RowsValid t.
+Proof. exact (gate_sound_rows code_variant). Qed.
 
 (* (b) soundness of the gate as it is: every clause of ValidTS except the two refuted below.
    PARTIAL with respect to  check t = Ok n -> ValidTS t : missing are "the removal order is a
@@ -34,10 +41,36 @@ Theorem check_complete : forall t, WF t -> ValidTS t -> 2 * num_edges t + 1 < TS
   (exists n, check t = Ok n) /\ (exists n, check_repaired t = Ok n).
 Proof. exact check_complete_top. Qed.
 
+(* (c') the number returned for a valid collection is the number of trees by definition: the
+   number of distinct values among 0 and the edge end points that lie below L.  FULL. *)
+Theorem check_num_trees : forall t n Lz, WF t -> ValidTS t -> 2 * num_edges t + 1 < TSK_MAX_ID ->
+  seqlen t = Fin Lz -> check t = Ok n -> n = num_trees_spec t Lz.
+Proof. exact check_count_top. Qed.
+
+Theorem check_repaired_num_trees : forall t n Lz, WF t -> 2 * num_edges t + 1 < TSK_MAX_ID ->
+  seqlen t = Fin Lz -> check_repaired t = Ok n -> n = num_trees_spec t Lz.
+Proof. exact check_repaired_count_top. Qed.
+
 (* (b'+c) the repaired gate decides ValidTS exactly *)
 Theorem check_repaired_iff : forall t, WF t -> 2 * num_edges t + 1 < TSK_MAX_ID ->
   ((exists n, check_repaired t = Ok n) <-> ValidTS t).
 Proof. exact check_repaired_iff_top. Qed.
+
+(* (e) build_index (as modelled: the index_sort_t keys, cmp_index_sort, a sort) yields two
+   permutations of the edge ids by nondecreasing left / right.  FULL. *)
+Theorem build_index_valid : forall t, EdgeRowsOK t -> forall t', build_index t = Ok t' ->
+  exists I O, t' = with_index t (Some (I, O)) /\ InsertionOK t I /\ RemovalOK t O.
+Proof. exact build_index_valid_lemma. Qed.
+
+(* (e') TableCollection.tree_sequence() on tables WITHOUT an index: whenever build_index's own
+   integrity call succeeds, every collection satisfying the non-index clauses is accepted.
+   PARTIAL: that build_index's call (options = EDGE_ORDERING only) succeeds on such tables is a
+   hypothesis, tied to the code by the correspondence only. *)
+Theorem gate_accepts_unindexed_partial : forall t t',
+  WF t -> idx t = None -> SeqlenOK t -> RowsValid t -> ChildIntervalsDisjoint t ->
+  MutBelowParentNodeOK t -> 2 * num_edges t + 1 < TSK_MAX_ID ->
+  build_index t = Ok t' -> exists n, tree_sequence_gate t = Ok n.
+Proof. exact gate_accepts_unindexed_lemma. Qed.
 
 (* (d) REFUTED on the faithful model: full soundness fails for the code as it is *)
 Theorem check_sound_index_refuted :
